@@ -29,7 +29,7 @@ TEMPS = int(CapabilityId.TEMPERATURES)
 
 
 def bounds(tier):
-    return {"known_ids": len(KNOWN), "values": "0..255", "sizes": "1..10", "list_len_exhaustive": 3, "sub_alphabet": 24,
+    return {"known_ids": len(KNOWN), "values": "0..255", "sizes": "1..10", "list_len_exhaustive": 3, "sub_alphabet": len(sub_alphabet()),
             "long_lists": "rotations + reversals of 12 / 24 records", "splits": "every point 0..n",
             "wire_lists": "all lists <= 3" if tier == "thorough" else "all lists <= 2 + 1/7 of length 3"}
 
@@ -41,6 +41,8 @@ def sub_alphabet() -> list[bytes]:
         r(TEMPS, 0x22, 0x3C, 0x22, 0x3C, 0x22, 0x3C, 1), r(TEMPS, 0x20, 0x40, 0x24, 0x38, 0x22, 0x3C), r(TEMPS, 0x20, 0x40, 0x24),
         r(TEMPS, 0x21), r(0x0040, 1), r(0x0777, 1, 2, 3), r(0x0012), r(0x0214), r(0x0043, 1), r(0x0042, 1), r(0x0018, 1),
         r(0x0048, 2), r(0x00E3, 1), r(0x0009, 1), r(0x0216, 2, 9, 9), r(0x021F, 2),
+        # the same ids again with the opposite meaning (a later record overrides an earlier one)
+        r(0x0216, 0), r(0x0048, 0), r(0x0048, 1), r(0x0212, 0),
     ]
 
 
@@ -65,9 +67,10 @@ def merged_singles(records: list[bytes]) -> dict:
 def shards(tier):
     out = [("single", lo, lo + 8) for lo in range(0, len(KNOWN) + 8, 8)]
     out += [("sizes", 0, 0)]
-    out += [("lists", i, 0) for i in range(24)]
+    n = len(sub_alphabet())
+    out += [("lists", i, 0) for i in range(n)]
     out += [("long", 0, 0)]
-    out += [("wire", i, 0) for i in range(24)]
+    out += [("wire", i, 0) for i in range(n)]
     out += [("wire-long", 0, 0)]
     return out
 
@@ -177,8 +180,8 @@ def run_shard(shard, tier) -> Stats:
                 st.ev(("l3", a, second, third), "agree" if not prob else "differ", True)
     elif kind == "long":
         for n in (12, 24):
-            for rot in range(24):
-                lst = [alpha[(rot + i) % 24] for i in range(n)]
+            for rot in range(len(alpha)):
+                lst = [alpha[(rot + i) % len(alpha)] for i in range(n)]
                 for variant in (lst, lst[::-1]):
                     prob = check_list(st, variant, f"len{n}")
                     st.ev(("long", n, rot, variant is lst), "agree" if not prob else "differ", True)
@@ -191,8 +194,8 @@ def run_shard(shard, tier) -> Stats:
                 if tier == "thorough" or (a + j + k) % 7 == 0:
                     check_wire(st, [first, second, third], "len3")
     else:
-        for rot in range(0, 24, 3):
-            lst = [alpha[(rot + i) % 24] for i in range(12)]
+        for rot in range(0, len(alpha), 3):
+            lst = [alpha[(rot + i) % len(alpha)] for i in range(12)]
             check_wire(st, lst, "len12")
             check_wire(st, lst[::-1], "len12")
     return st
